@@ -6,7 +6,9 @@ from props.C01 import TRUSTED
 def run(ck):
     ck.coq_build("Core")
     ck.extract("Core")
-    s = rwsearch.Search(ck, ops=rwsearch.SIG_OPS, chain=1)
+    s = rwsearch.Search(ck, ops=rwsearch.SIG_OPS, chain=1, features={"shadow": 0.4, "calls": 0.5, "index_arg": 0.6},
+                        prefix_ops={"inline", "unroll_loop", "cut_loop", "divide_loop", "specialize", "bind_expr", "stage_mem",
+                                    "expand_dim", "lift_scope", "fission", "simplify"})
     erased = {"same": 0, "differ": 0}
 
     def erasure(p, q, op, descr, site, replay):
